@@ -2183,6 +2183,37 @@ class Interp:
             if binding and binding[0] == 'ext' and binding[1] == 'functools.partial':
                 func, args, keywords = value.args[0], list(value.args[1:]), \
                     list(value.keywords)
+        if func is None and isinstance(value, ast.Call) and value.args and \
+                isinstance(value.args[0], ast.Constant) and \
+                isinstance(value.args[0].value, str) and len(expr.args) == 1 and \
+                not expr.keywords and not isinstance(expr.args[0], ast.Starred):
+            binding = self.p.resolve_dotted(fr.fn.module, value.func)
+            if binding and binding[0] == 'ext' and binding[1] == 'operator.methodcaller' \
+                    and value.args[0].value.isidentifier() and not any(
+                        isinstance(a, ast.Starred) for a in value.args):
+                # methodcaller('m', x, k=v)(obj)  ==  obj.m(x, k=v)
+                subject = expr.args[0]
+                key = (id(expr), id(value))
+                found = self._PARTIALS.get(key)
+                if found is None or found[1] is not expr or found[2] is not value:
+                    captured = {n.id for part in list(value.args[1:])
+                                + [kw.value for kw in value.keywords]
+                                for n in ast.walk(part) if isinstance(n, ast.Name)}
+                    for event in st.events[position + 1:]:
+                        if event.kind == 'store' and event.data.get('local') and \
+                                event.data.get('fid') == fr.fid and \
+                                event.data.get('path') in captured:
+                            return None
+                    call = ast.Call(func=ast.Attribute(value=subject,
+                                                       attr=value.args[0].value,
+                                                       ctx=ast.Load()),
+                                    args=list(value.args[1:]), keywords=list(value.keywords))
+                    ast.copy_location(call, expr)
+                    ast.copy_location(call.func, expr)
+                    call.origin_node = expr
+                    found = (call, expr, value)
+                    self._PARTIALS[key] = found
+                return found[0]
         if func is None and isinstance(value, ast.Attribute):
             base = value
             while isinstance(base, ast.Attribute):
